@@ -454,3 +454,9 @@ for k, extra in (("C02", "TLC first checks the same monitor exhaustively on MC_C
                          "(no state constraint). ")):
     TEXT[k]["level_text"] = extra + TEXT[k]["level_text"]
     TEXT[k]["technique"] = "TLA+ spec + TLC exhaustive on MC_Cluster (2-3 instances) + " + TEXT[k]["technique"]
+
+
+# wrap-around of the u8 probe number and timer token (c14 driver, every 40th set) also serves C06 and C13
+for _p in ("C06", "C13"):
+    for _t, _n in (("quick", "48"), ("thorough", "200")):
+        PROPS[_p]["drivers"][_t].append({"args": ["c14", "--sets", _n, "--nmax", "4"], "shards": 1})
